@@ -25,6 +25,8 @@ def build(u):
     u5.build(u)
     u.prelude('stack_env.rs')
     weave_readonly(u, u4)
+    weave_stack(u, u4)
+    u4.thread_all(u)
     return u
 
 
@@ -269,4 +271,114 @@ impl ReadOnlyCache {
         ('C16:an-invalid-name-never-gets-past-the-first-level', 'k > 0 ==> first_byte_ok(str_bytes(key.name))'),
         ('C06 C20:at-most-two-calls-per-level', 'w.steps <= old(w).steps + 2 * k && w.opens == old(w).opens'),
     ], ensures=[('', 'k == stack@.len()')], decreases='stack@.len() - k')
+    u.text('}\n')
+
+
+WRITE_SPECS = '''
+    /// Which copy (inode) the write cache holds for `key`, as a function of the link map only.
+    spec fn lookup(&self, w: World, key: Key) -> Option<InodeId>;
+
+    /// Handle well-formedness (established by the constructors).
+    spec fn level_wf(&self) -> bool;
+
+    /// The directories of this cache are configured read-write cache directories that no read-only root overlaps.
+    spec fn rw(&self, w: World) -> bool;
+
+    /// `value` is a private, finished (and, when auto_sync demands it, flushed) file holding the bytes supplied for `key`.
+    spec fn ready(&self, w: World, value: PathV, key: Key) -> bool;
+
+    /// Everything a write changed lies inside this cache's directories; new links only under the key's own entry path(s).
+    spec fn wrote(&self, old: World, fin: World, key: Key, value: PathV) -> bool;
+
+    /// `d` is the `.kismet_temp` subdirectory of one of this cache's directories.
+    spec fn temp_ok(&self, w: World, d: PathV) -> bool;
+'''
+
+
+def weave_stack(u, u4):
+    from weave import Repl
+    u.text('pub mod stack {\n' + u4.MOD_HEAD + 'use crate::std::fs::File;\nuse crate::plain::Cache as PlainCache;\nuse crate::sharded::Cache as ShardedCache;\n'
+           'use crate::Key;\nuse crate::Arc;\nuse crate::cache_dir::CacheDir;\nuse crate::cache_dir::*;\nuse crate::sharded::*;\nuse crate::readonly::*;\nuse crate::readonly::ReadOnlyCache;\n'
+           'use crate::ConsistencyChecker;\n')
+    BAD = '(!first_byte_ok(str_bytes(key.name)) || str_bytes(key.name).contains(0x2fu8))'
+    t = u.item('src/stack.rs', ['trait FullCache'])
+    t.insert_before('trait FullCache', 'pub ')   # T9: visibility only
+    a, _ = t._find('trait FullCache :')
+    o, _ = t.body()
+    t.repls.append(Repl(t.ct[a + 2][2], t.ct[o - 1][3], '', 'T7-marker-bounds'))
+    g = t.sub(['fn get'])
+    g.insert_before_tok(g.fn_kw(), WRITE_SPECS.strip() + '\n\n    ')
+    g.add_param(W)
+    g.contract(requires=[('', 'old(w).inv() && self.level_wf()')], ensures=level_get_ensures('self.lookup(*old(w), key)'))
+    th = t.sub(['fn touch'])
+    th.add_param(W)
+    th.contract(requires=[('', 'old(w).inv() && self.level_wf()')], ensures=level_touch_ensures('self.lookup(*old(w), key)'))
+    td = t.sub(['fn temp_dir'])
+    td.add_param(W)
+    TEMP_ENS = [
+        ('C02 C18:valid-on-every-exit', 'final(w).inv()'), ('', 'final(w).kept_nc(*old(w)) && final(w).published == old(w).published && final(w).inodes == old(w).inodes'),
+        ('C02 C16:temp-dir-is-a-kismet-temp-subdirectory-of-this-cache', 'r.is_ok() ==> self.temp_ok(*final(w), cowv(r.unwrap())) && final(w).dirs.contains(cowv(r.unwrap()))'),
+        ('C17 C15:asking-for-a-temp-dir-creates-directories-and-drops-stale-temporary-files-only',
+         '(forall|p: PathV| #[trigger] final(w).files.contains_key(p) ==> old(w).files.contains_key(p) && final(w).files[p] == old(w).files[p]) '
+         '&& (forall|d: PathV| #[trigger] old(w).dirs.contains(d) ==> final(w).dirs.contains(d)) '
+         '&& (forall|p: PathV| old(w).files.contains_key(p) && !(#[trigger] final(w).files.contains_key(p)) ==> p.len() > 0 && parent(p).len() > 0 && base_name(parent(p)) == temp_name())'),
+        ('C18:error-is-a-real-fault', 'r.is_err() ==> final(w).hard_faults > old(w).hard_faults'),
+    ]
+    td.contract(requires=[('', 'old(w).inv() && self.level_wf() && self.rw(*old(w))')], ensures=TEMP_ENS)
+
+    def write_ens():
+        return [
+            ('C02 C18:valid-on-every-exit', 'final(w).inv()'), ('', 'final(w).kept_nc(*old(w))'),
+            ('C16:invalid-names-fail-with-invalid-input-and-modify-nothing',
+             '%s ==> r.is_err() && err_kind(err_of(r)) == ErrorKind::InvalidInput && final(w).same_fs(*old(w)) && final(w).counter == old(w).counter && final(w).published == old(w).published' % BAD),
+            ('C11 C18:success-consumes-the-source', 'r.is_ok() ==> old(w).files.contains_key(pv(value)) && !final(w).files.contains_key(pv(value))'),
+            ('C15 C16 C17 C12:everything-that-changes-is-inside-this-cache', 'self.wrote(*old(w), *final(w), key, pv(value))'),
+            ('C18 C05:error-is-explained', 'r.is_err() ==> %s || final(w).hard_faults > old(w).hard_faults || !final(w).files.contains_key(pv(value))' % BAD),
+        ]
+    for op in ('set', 'put'):
+        m = t.sub(['fn ' + op])
+        m.add_param(W)
+        m.contract(requires=[('', 'old(w).inv() && self.level_wf() && self.rw(*old(w))'),
+                             ('C01 C03:publishing-needs-a-private-finished-flushed-file-supplied-for-this-key', 'valid_key(str_bytes(key.name)) ==> self.ready(*old(w), pv(value), key)')],
+                   ensures=write_ens())
+
+    RW_PLAIN = ('(self.spec_temp() == child(self.spec_base(), temp_name()) && w.cache_dirs.contains(self.spec_base()) && !w.under_ro(self.spec_base()) '
+                '&& !w.under_ro(self.spec_temp()) && (forall|n: Seq<u8>| !w.under_ro(#[trigger] child(self.spec_base(), n))) '
+                '&& (forall|n: Seq<u8>| !w.under_ro(#[trigger] child(self.spec_temp(), n))))')
+    S1 = 'shard_ids_spec(key.hash, key.secondary_hash, self.spec_n()).0'
+    S2 = 'shard_ids_spec(key.hash, key.secondary_hash, self.spec_n()).1'
+    IMPL = {
+        'PlainCache': dict(
+            lookup='plain_lookup(w, self.spec_base(), str_bytes(key.name))', wf='self.wf()', rw=RW_PLAIN,
+            ready='value_ready(w, value, self.spec_base(), str_bytes(key.name))',
+            wrote='write_frame(old, fin, self.spec_base(), str_bytes(key.name), value)',
+            temp_ok='d == self.spec_temp()'),
+        'ShardedCache': dict(
+            lookup='sharded_lookup(w, self.spec_root(), self.spec_n(), key)', wf='self.wf()', rw='self.rw(w)',
+            ready='value_ready(w, value, shard_dir_of(self.spec_root(), %s as usize), str_bytes(key.name)) && value_ready(w, value, shard_dir_of(self.spec_root(), %s as usize), str_bytes(key.name))' % (S1, S2),
+            wrote='sharded_frame(old, fin, self.spec_root(), self.spec_n(), str_bytes(key.name), value) '
+                  '&& forall|p: PathV| #[trigger] fin.files.contains_key(p) && !old.files.contains_key(p) ==> p == entry_in(self.spec_root(), %s, str_bytes(key.name)) || p == entry_in(self.spec_root(), %s, str_bytes(key.name))' % (S1, S2),
+            temp_ok='exists|i: usize| i < self.spec_n() && d == #[trigger] child(shard_dir_of(self.spec_root(), i), temp_name())'),
+    }
+    for ty, sp in IMPL.items():
+        im = u.item('src/stack.rs', ['impl FullCache for ' + ty])
+        first = True
+        for name in ('get', 'temp_dir', 'set', 'put', 'touch'):
+            m = u.under_contract(im.sub(['fn ' + name]), ['C13', 'C11', 'C15', 'C16', 'C18', 'C05', 'C02', 'C03', 'C01', 'C12', 'C17'])
+            m.air = r'stack::impl&%\d+::' + name
+            m.probe_ok = False
+            if first:
+                m.insert_before_tok(m.fn_kw(),
+                                    'open spec fn lookup(&self, w: World, key: Key) -> Option<InodeId> { %(lookup)s }\n\n'
+                                    '    open spec fn level_wf(&self) -> bool { %(wf)s }\n\n'
+                                    '    open spec fn rw(&self, w: World) -> bool { %(rw)s }\n\n'
+                                    '    open spec fn ready(&self, w: World, value: PathV, key: Key) -> bool { %(ready)s }\n\n'
+                                    '    open spec fn wrote(&self, old: World, fin: World, key: Key, value: PathV) -> bool { %(wrote)s }\n\n'
+                                    '    open spec fn temp_ok(&self, w: World, d: PathV) -> bool { %(temp_ok)s }\n\n    ' % sp)
+                first = False
+            m.add_param(W)
+            m.add_arg('%s :: %s' % (ty, name), TW)
+            if name == 'temp_dir' and ty == 'PlainCache':
+                m.replace('_key : Key', 'key: Key', 'T12-unused-param-name')
+    u.dropped.append('T12: the unused parameter `_key` of `impl FullCache for PlainCache::temp_dir` is spelled `key` (parameter names must match the trait contract)')
     u.text('}\n')
